@@ -1,4 +1,4 @@
-; requires: strings
+; requires: strings cursor
 ; Ghost state of the store.Store / Tx / Cursor interface contract (DESIGN.md section 5.1).
 ; Transactions and cursors are identified by their interface value.
 ; ghost: txState (Array Val Int)
@@ -44,3 +44,7 @@
 ; committed view of the store: what a transaction begun now would read (snapshot isolation, single writer)
 ; ghost: cmHas (Array Str Bool)
 ; ghost: cmVal (Array Str Bytes)
+; how many times each key was handed to an item consumer by a prefix scan (C17, C01: exactly once each)
+; ghost: seen (Array Str Int)
+; how many times a scan was cut short by a consumer asking to stop (exactness of a scan is stated for uncut scans)
+; ghost: cuts Int
